@@ -23,6 +23,51 @@ Proof. intros. unfold ceilidiv. apply Nat.div_small. lia. Qed.
 Lemma ceilidiv_mono : forall x x' y, 0 < y -> x <= x' -> ceilidiv x y <= ceilidiv x' y.
 Proof. intros. unfold ceilidiv. apply Nat.div_le_mono; lia. Qed.
 
+(* roundpow2 never wraps below 2^62 *)
+Local Open Scope Z_scope.
+Lemma lor_ge_l : forall a b, 0 <= a -> 0 <= b -> a <= Z.lor a b.
+Proof.
+  intros a b Ha Hb. assert (0 <= Z.lor a b) by (apply Z.lor_nonneg; split; assumption).
+  apply (Z.ldiff_le a (Z.lor a b)); [assumption|].
+  apply Z.bits_inj'. intros n Hn. rewrite Z.ldiff_spec, Z.lor_spec, Z.bits_0.
+  destruct (Z.testbit a n), (Z.testbit b n); reflexivity.
+Qed.
+
+Lemma lor_shiftr_log2 : forall a k, 0 < a -> 0 <= k ->
+  0 < Z.lor a (Z.shiftr a k) /\ a <= Z.lor a (Z.shiftr a k) /\ Z.log2 (Z.lor a (Z.shiftr a k)) = Z.log2 a.
+Proof.
+  intros a k Ha Hk. assert (0 <= Z.shiftr a k) by (apply Z.shiftr_nonneg; lia).
+  pose proof (lor_ge_l a (Z.shiftr a k) ltac:(lia) H).
+  split; [lia|]. split; [assumption|].
+  rewrite Z.log2_lor by lia. rewrite Z.log2_shiftr by assumption.
+  pose proof (Z.log2_nonneg a). lia.
+Qed.
+
+Lemma roundpow2_ge : forall n, 0 <= n <= 2 ^ 62 -> n <= roundpow2 n.
+Proof.
+  intros n Hn. unfold roundpow2.
+  destruct (Z.land n ((n - 1) mod M64) =? 0); [lia|].
+  destruct (Z.eq_dec n 0) as [->|Hz]; [vm_compute; discriminate|].
+  assert (0 < n) as Hp by lia.
+  destruct (lor_shiftr_log2 n 1 Hp ltac:(lia)) as (P1 & G1 & L1).
+  destruct (lor_shiftr_log2 _ 2 P1 ltac:(lia)) as (P2 & G2 & L2).
+  destruct (lor_shiftr_log2 _ 4 P2 ltac:(lia)) as (P3 & G3 & L3).
+  destruct (lor_shiftr_log2 _ 8 P3 ltac:(lia)) as (P4 & G4 & L4).
+  destruct (lor_shiftr_log2 _ 16 P4 ltac:(lia)) as (P5 & G5 & L5).
+  destruct (lor_shiftr_log2 _ 32 P5 ltac:(lia)) as (P6 & G6 & L6).
+  set (n6 := Z.lor _ (Z.shiftr _ 32)) in *.
+  assert (Z.log2 n6 = Z.log2 n) as LL by congruence.
+  assert (Z.log2 n <= 62) as L62.
+  { assert (Z.log2 n < 63); [|lia]. apply Z.log2_lt_pow2; [assumption|].
+    assert (2 ^ 62 < 2 ^ 63) by (apply Z.pow_lt_mono_r; lia). lia. }
+  assert (n6 < 2 ^ 63).
+  { apply Z.log2_lt_pow2; [assumption|]. lia. }
+  assert (M64 = 2 ^ 64) as EM by reflexivity.
+  rewrite Z.mod_small; [lia|]. rewrite EM. split; [lia|].
+  assert (2 ^ 63 < 2 ^ 64) by (apply Z.pow_lt_mono_r; lia). lia.
+Qed.
+Local Close Scope Z_scope.
+
 Lemma NoDup_app_snoc : forall (l : list nat) x, NoDup l -> ~ In x l -> NoDup (l ++ [x]).
 Proof.
   induction l; intros x ND NI; cbn; [constructor; [intros []|constructor]|].
